@@ -29,6 +29,12 @@ func isByteSeq(t types.Type) bool {
 // c16Posts proves the post-conditions of parseTagAndLength on the callee and
 // returns them for use at its call sites.
 func c16Posts(c *Ctx, r *Report, rule string) map[*ssa.Function]*postCond {
+	return c16PostsW(c, r, rule, 0)
+}
+
+// c16PostsW: as c16Posts; wantAccept > 0 adds the sibling-agreement obligation
+// that lengths written in up to wantAccept octets are accepted.
+func c16PostsW(c *Ctx, r *Report, rule string, wantAccept int64) map[*ssa.Function]*postCond {
 	posts := map[*ssa.Function]*postCond{}
 	ptl := c.fn("cdr/asn", "parseTagAndLength")
 	key := fnKey(ptl)
@@ -85,6 +91,19 @@ func c16Posts(c *Ctx, r *Report, rule string) map[*ssa.Function]*postCond {
 					okShape, why := shiftOrAccumulation(acc)
 					r.check(okShape, rule, key+"|lemma premise: the length octets are accumulated by shift-or from 0", c.rel(acc.Pos()), acc.Name()+" returns 0 shifted left by at most 8 bits and or-ed with one zero-extended octet per input octet, nothing else", "the value used as content length is not a plain unsigned shift-or accumulation ("+why+"): it can be negative for some length octets (e.g. after sign extension), so callers' range checks and progress arguments break")
 					ln := e.lenForm(call.Call.Args[0], 0)
+					if wantAccept > 0 {
+						// the smallest bound the guards establish on the number of length octets
+						// is what the decoder accepts; it must cover what the encoder can emit
+						acc := int64(-1)
+						for k := int64(1); k <= 8; k++ {
+							if okk, _ := e.prove(ln, k, nil, call.Block()); okk {
+								acc = k
+								break
+							}
+						}
+						r.check(acc < 0 || acc >= wantAccept, rule, key+"|long-form lengths the encoder emits are accepted", posOf(c, call), fmt.Sprintf("lengths written in up to %d octets are accepted; the encoder needs at most %d for anything that fits in memory", acc, wantAccept),
+							fmt.Sprintf("the decoder refuses lengths written in more than %d octets (contents of 256^%d octets and more), but the encoder writes such lengths with %d+ octets: what BerMarshal produced for a large value cannot be unmarshalled (\"length is too large\")", acc, acc, acc+1))
+					}
 					okp, _ := e.prove(ln, 7, nil, call.Block())
 					r.check(okp, rule, key+"|lemma premise: long-form length has at most 7 octets", posOf(c, call), "at most 7 octets are accumulated into the int64 length, so it is non-negative (shift-or accumulation lemma)", "the number of length octets handed to "+acc.Name()+" is not bounded by 7: the accumulated int64 length may be negative")
 					if !okp || !okShape {
